@@ -7,6 +7,7 @@
   and every address the allocator may return (`Fresh`).
 -/
 import YaraModel.Lemmas.ArenaExample
+import YaraModel.Lemmas.ArenaSeq
 namespace YaraModel.Arena
 open YaraModel.Gen.ArenaLayout
 
@@ -26,6 +27,82 @@ example : abs (growBuf exArena 1 65536 64 false) = abs exArena :=
 
 /-- … and the move really happened and really rewrote the pointer (the statement is not vacuous) -/
 example : getSlot (growBuf exArena 1 65536 64 false) ⟨0, 0⟩ = 65538 ∧ getSlot exArena ⟨0, 0⟩ = 4098 := by decide
+
+/-- **No stale reference.** After the growth the protocol still holds: every registered slot holds null
+    or a pointer into the used bytes of a buffer *at its new address*. -/
+theorem grow_wf {a : Arena} (h : WF a) {b newBase nc : Nat} (hb : b < a.bufs.length)
+    (hf : Fresh a b newBase nc) (zero : Bool) : WF (growBuf a b newBase nc zero) :=
+  wf_growBuf h hb hf zero
+
+/-- **One allocation is a function of the abstract arena.** Whatever the buffer's capacity, the
+    always-move hook and the allocator's (admissible) answer: the bytes are appended to the body of
+    buffer `b`, nothing else changes, the protocol is preserved. -/
+theorem alloc_abs (cfg : Cfg) (nb : Nat) {a : Arena} (h : WF a) (hinit : 0 < a.init) {b : Nat} {zero : Bool} {fill : Bytes}
+    {a' : Arena} {r : Ref} (hres : allocMem cfg nb a b zero fill = .ok (a', r))
+    (hfresh : AllocFresh cfg nb a b fill.length) (hsz : (a.bufAt b).data.length + fill.length < 2 ^ 32) :
+    WF a' ∧ abs a' = absAppend (abs a) b fill ∧ r = ⟨b, (a.bufAt b).data.length⟩ :=
+  let ⟨h1, h2, h3, _⟩ := allocMem_spec cfg nb h hinit hres hfresh hsz
+  ⟨h1, h2, h3⟩
+
+/-- **Any allocation sequence, any initial capacity, any move schedule** (partial: the sequence
+    consists of allocations — write_data / zeroed memory / the memory of a struct — into an arena that
+    may already hold arbitrarily many registered pointers; operations that register new slots or
+    store pointers are not part of the sequence).  Two runs of the same requests, started from arenas
+    with the same abstract content but different initial sizes, capacities, addresses, hook settings
+    and allocator answers, end in arenas with the same abstract content, hence (`save_eq_of_abs_eq`)
+    the same saved bytes.
+    Full statement (not proved): the same for sequences of all `Op`s (`run`). -/
+theorem alloc_seq_abs_partial (cfg₁ cfg₂ : Cfg) (reqs : List Req) :
+    ∀ (bases₁ bases₂ : List Nat) (a₁ a₂ a₁' a₂' : Arena), WF a₁ → WF a₂ → 0 < a₁.init → 0 < a₂.init → abs a₁ = abs a₂ →
+      Admissible cfg₁ bases₁ a₁ reqs → Admissible cfg₂ bases₂ a₂ reqs →
+      runAllocs cfg₁ bases₁ a₁ reqs = .ok a₁' → runAllocs cfg₂ bases₂ a₂ reqs = .ok a₂' →
+      abs a₁' = abs a₂' ∧ WF a₁' ∧ WF a₂' := by
+  induction reqs with
+  | nil =>
+    intro bases₁ bases₂ a₁ a₂ a₁' a₂' h₁ h₂ _ _ habs _ _ hr₁ hr₂
+    cases bases₁ <;> cases bases₂ <;> simp only [runAllocs, Except.ok.injEq] at hr₁ hr₂ <;> subst hr₁ <;> subst hr₂ <;>
+      exact ⟨habs, h₁, h₂⟩
+  | cons q qs ih =>
+    intro bases₁ bases₂ a₁ a₂ a₁' a₂' h₁ h₂ hi₁ hi₂ habs had₁ had₂ hr₁ hr₂
+    cases bases₁ with
+    | nil => simp [runAllocs] at hr₁
+    | cons nb₁ nbs₁ =>
+      cases bases₂ with
+      | nil => simp [runAllocs] at hr₂
+      | cons nb₂ nbs₂ =>
+        simp only [runAllocs] at hr₁ hr₂
+        obtain ⟨hf₁, hz₁, hn₁⟩ := had₁
+        obtain ⟨hf₂, hz₂, hn₂⟩ := had₂
+        cases e₁ : allocMem cfg₁ nb₁ a₁ q.b q.zero q.fill with
+        | error e => rw [e₁] at hr₁; cases hr₁
+        | ok p₁ =>
+          cases e₂ : allocMem cfg₂ nb₂ a₂ q.b q.zero q.fill with
+          | error e => rw [e₂] at hr₂; cases hr₂
+          | ok p₂ =>
+            obtain ⟨b₁, r₁⟩ := p₁
+            obtain ⟨b₂, r₂⟩ := p₂
+            rw [e₁] at hr₁; rw [e₂] at hr₂
+            have s₁ := allocMem_spec cfg₁ nb₁ h₁ hi₁ e₁ hf₁ hz₁
+            have s₂ := allocMem_spec cfg₂ nb₂ h₂ hi₂ e₂ hf₂ hz₂
+            exact ih nbs₁ nbs₂ b₁ b₂ a₁' a₂' s₁.1 s₂.1 (by rw [s₁.2.2.2]; exact hi₁) (by rw [s₂.2.2.2]; exact hi₂)
+              (by rw [s₁.2.1, s₂.2.1, habs]) (hn₁ _ _ e₁) (hn₂ _ _ e₂) hr₁ hr₂
+
+/-- the hypotheses of the sequence theorem are satisfiable: 9 bytes written to buffer 1 of the example arena
+    (capacity 8, 4 used) make it grow; one run lets realloc move the block to 0x10000, the other run has the
+    always-move hook on and gets 0x30000: both runs succeed and are admissible -/
+example : ∃ a₁' a₂', runAllocs {} [65536] exArena [⟨1, false, [1, 2, 3, 4, 5, 6, 7, 8, 9]⟩] = .ok a₁' ∧
+    runAllocs { alwaysMove := true } [196608] exArena [⟨1, false, [1, 2, 3, 4, 5, 6, 7, 8, 9]⟩] = .ok a₂' ∧
+    Admissible {} [65536] exArena [⟨1, false, [1, 2, 3, 4, 5, 6, 7, 8, 9]⟩] ∧
+    Admissible { alwaysMove := true } [196608] exArena [⟨1, false, [1, 2, 3, 4, 5, 6, 7, 8, 9]⟩] := by
+  have fresh : ∀ nb nc, nb = 65536 ∨ nb = 196608 → nc = 16 → Fresh exArena 1 nb nc := by
+    intro nb nc hnb hnc
+    subst hnc
+    refine ⟨by omega, ⟨by decide, by omega⟩, ?_, by rcases hnb with rfl | rfl <;> decide⟩
+    intro j hj hne
+    have : j = 0 ∨ j = 2 := by have : j < 3 := hj; omega
+    rcases this with rfl | rfl <;> rcases hnb with rfl | rfl <;> decide
+  refine ⟨_, _, rfl, rfl, ⟨fun _ => fresh _ _ (Or.inl rfl) (by decide), by decide, fun _ _ _ => trivial⟩,
+    ⟨fun _ => fresh _ _ (Or.inr rfl) (by decide), by decide, fun _ _ _ => trivial⟩⟩
 
 /-- The bytes written by `yr_arena_save_stream` are a function of the abstract arena alone
     (never of addresses or capacities). -/
